@@ -1,9 +1,13 @@
 package inputroot
 
 import (
+	"bytes"
 	"fmt"
+	"strings"
 
 	remoteexecution "github.com/bazelbuild/remote-apis/build/bazel/remote/execution/v2"
+	"github.com/buildbarn/bb-storage/pkg/digest"
+	"google.golang.org/protobuf/proto"
 	"pgregory.net/rapid"
 )
 
@@ -20,12 +24,30 @@ type malform struct {
 	Variant  int    `json:"variant,omitempty"`
 }
 
-var invalidNames = []string{"", ".", "..", "a/b", "/", "x\x00y"}
+// Names that path.NewComponent documents as invalid: empty, ".", "..",
+// containing a slash, not a C string.
+var invalidNames = []string{"", ".", "..", "a/b", "/", "x\x00y", "/abs", "a/", "./a", "../x", "a//b", "\x00"}
 
 var (
-	messageMalformations = []string{"invalid_name", "duplicate", "bad_digest", "garbage_dir"}
+	// symlink_target_nul: a symlink whose target contains a NUL byte (the
+	// UNIX path parser documents that it rejects these, so
+	// SymlinkFactory.LookupSymlink fails after the files of the directory
+	// have been created).
+	messageMalformations = []string{"invalid_name", "duplicate", "bad_digest", "garbage_dir", "symlink_target_nul"}
 	blobMalformations    = []string{"missing_dir", "corrupt_dir", "missing_file", "corrupt_file", "short_file"}
+	// Further ways in which a Directory object can be unusable (drawn by
+	// TestC17Malformed only): a name or symlink target that is not UTF-8
+	// (proto3 strings have to be), a message that ends in the middle of a
+	// field or has an invalid wire type, a reference whose size_bytes
+	// does not match the stored object, a message larger than the
+	// configured maximum Directory size.
+	extraMessageMalformations = []string{"invalid_utf8", "truncated_dir", "size_mismatch", "oversized_dir"}
 )
+
+// maximumDirectorySizeBytes is the limit newDirectoryFetcher configures.
+const maximumDirectorySizeBytes = 1 << 16
+
+var nulTargets = []string{"a\x00b", "\x00", "ok/\x00", "../x\x00", "/abs\x00/y"}
 
 func drawMalformations(rt *rapid.T, g *dagSpec) []malform {
 	n := rapid.SampledFrom([]int{0, 1, 1, 1, 2}).Draw(rt, "nMalformations")
@@ -42,7 +64,7 @@ func drawMalformations(rt *rapid.T, g *dagSpec) []malform {
 			// part of the tree is where the trouble usually is.
 			m.Template = rapid.OneOf(rapid.IntRange(0, len(g.Dirs)-1), rapid.IntRange(0, max(0, len(g.Dirs)-2))).Draw(rt, "template")
 			m.Entry = rapid.IntRange(0, 5).Draw(rt, "entry")
-			m.Variant = rapid.IntRange(0, 5).Draw(rt, "variant")
+			m.Variant = rapid.IntRange(0, 59).Draw(rt, "variant")
 		}
 		out = append(out, m)
 	}
@@ -54,6 +76,12 @@ var badHashes = []string{
 	"abcd", // too short
 	"E3B0C44298FC1C149AFBF4C8996FB92427AE41E4649B934CA495991B7852B855", // upper case
 	"", // empty
+	"e3b0c44298fc1c149afbf4c8996fb92427ae41e4649b934ca495991b7852b85",                                                                  // 63 characters
+	"e3b0c44298fc1c149afbf4c8996fb92427ae41e4649b934ca495991b7852b8555",                                                                // 65 characters
+	"da39a3ee5e6b4b0d3255bfef95601890afd80709",                                                                                         // a SHA-1 sized hash with a SHA-256 digest function
+	"cf83e1357eefb8bdf1542850d66d8007d620e4050b5715dc83f4a921d36ce9ce47d0d13c5d85f2b0ff8318d2877eec2f63b931bd47417a81a538327af927da3e", // SHA-512 sized
+	"e3b0c44298fc1c149afbf4c8996fb924 7ae41e4649b934ca495991b7852b855",                                                                 // a space
+	"e3b0c44298fc1c149afbf4c8996fb92427ae41e4649b934ca495991b7852b85g",                                                                 // 'g' at the end
 }
 
 // applyMessageMalformation edits the Directory message of a template.
@@ -113,15 +141,82 @@ func applyMessageMalformation(msg *remoteexecution.Directory, m malform) {
 		} else {
 			d = &msg.Directories[i-len(msg.Files)].Digest
 		}
-		switch v := m.Variant % 6; v {
-		case 4:
+		switch v := m.Variant % (len(badHashes) + 3); v {
+		case len(badHashes):
 			*d = nil
-		case 5:
+		case len(badHashes) + 1:
 			*d = &remoteexecution.Digest{Hash: (*d).GetHash(), SizeBytes: -1}
+		case len(badHashes) + 2:
+			*d = &remoteexecution.Digest{Hash: (*d).GetHash(), SizeBytes: -1 << 63}
 		default:
 			*d = &remoteexecution.Digest{Hash: badHashes[v], SizeBytes: (*d).GetSizeBytes()}
 		}
+	case "symlink_target_nul":
+		bad := nulTargets[m.Variant%len(nulTargets)]
+		if len(msg.Symlinks) == 0 {
+			msg.Symlinks = append(msg.Symlinks, &remoteexecution.SymlinkNode{Name: "nul", Target: bad})
+		} else {
+			msg.Symlinks[m.Entry%len(msg.Symlinks)].Target = bad
+		}
+	case "oversized_dir":
+		// A valid message that is larger than the configured maximum.
+		msg.Files = append(msg.Files, &remoteexecution.FileNode{Name: strings.Repeat("n", maximumDirectorySizeBytes), Digest: emptyFile})
+	case "invalid_utf8":
+		// The placeholder is made invalid UTF-8 after marshalling.
+		switch m.Variant % 3 {
+		case 0:
+			msg.Files = append(msg.Files, &remoteexecution.FileNode{Name: utf8Placeholder, Digest: emptyFile})
+		case 1:
+			msg.Directories = append(msg.Directories, &remoteexecution.DirectoryNode{Name: utf8Placeholder, Digest: emptyFile})
+		default:
+			msg.Symlinks = append(msg.Symlinks, &remoteexecution.SymlinkNode{Name: "utf8", Target: utf8Placeholder})
+		}
 	}
+}
+
+const utf8Placeholder = "@@UTF8@@"
+
+// unparseable reports whether the bytes are not a Directory message.
+func unparseable(b []byte) bool {
+	return proto.Unmarshal(b, &remoteexecution.Directory{}) != nil
+}
+
+// applyByteMalformation damages a marshalled Directory message so that
+// it cannot be parsed any more (checked with the protobuf library; if a
+// variant happens to leave a parseable message, a field that claims more
+// bytes than there are is appended).
+func applyByteMalformation(b []byte, m malform) []byte {
+	b = append([]byte(nil), b...)
+	switch m.Kind {
+	case "invalid_utf8":
+		b = bytes.Replace(b, []byte(utf8Placeholder), []byte("@@\xff\xfe8@@"), 1)
+	case "truncated_dir":
+		switch v := m.Variant % 4; {
+		case v == 0 && len(b) > 0:
+			b = b[:len(b)-1] // ends in the middle of the last field
+		case v == 1:
+			b = append(b, 0x0f) // field 1 with wire type 7
+		case v == 2:
+			b = append(b, 0x08) // a varint field without its value
+		case v == 3 && len(b) > 3:
+			b = b[:len(b)/2]
+		}
+	}
+	if !unparseable(b) {
+		b = append(b, 0x0a, 0x7f)
+	}
+	if !unparseable(b) {
+		panic(fmt.Sprintf("harness bug: %x still parses as a Directory message", b))
+	}
+	return b
+}
+
+func digestWithSize(d digest.Digest, size int64) digest.Digest {
+	out, err := digestFunction.NewDigest(d.GetHashString(), size)
+	if err != nil {
+		panic(fmt.Sprintf("harness bug: %v", err))
+	}
+	return out
 }
 
 // materializeWith stores the DAG with the malformations applied. It
@@ -139,13 +234,26 @@ func materializeWith(c *fakeCAS, g *dagSpec, malforms []malform) (mat *materiali
 		msg := encodeDir(g, d, mat.dirDigests, mat.fileDigest)
 		var b []byte
 		garbage := false
+		var byteLevel []malform
+		var sizeMismatch *malform
 		for _, m := range malforms {
 			if m.Template != t {
 				continue
 			}
 			switch m.Kind {
-			case "invalid_name", "duplicate", "bad_digest":
+			case "invalid_name", "duplicate", "bad_digest", "symlink_target_nul", "oversized_dir":
 				applyMessageMalformation(msg, m)
+				badTmpl[t] = m.Kind
+			case "invalid_utf8":
+				applyMessageMalformation(msg, m)
+				byteLevel = append(byteLevel, m)
+				badTmpl[t] = m.Kind
+			case "truncated_dir":
+				byteLevel = append(byteLevel, m)
+				badTmpl[t] = m.Kind
+			case "size_mismatch":
+				m := m
+				sizeMismatch = &m
 				badTmpl[t] = m.Kind
 			case "garbage_dir":
 				garbage = true
@@ -159,9 +267,29 @@ func materializeWith(c *fakeCAS, g *dagSpec, malforms []malform) (mat *materiali
 			b = []byte{0x0a, 0x7f, byte(t)}
 		} else {
 			b = mustMarshal(msg)
+			for _, m := range byteLevel {
+				b = applyByteMalformation(b, m)
+			}
 		}
 		mat.dirBytes = append(mat.dirBytes, b)
-		mat.dirDigests = append(mat.dirDigests, c.store(b))
+		d := c.store(b)
+		if sizeMismatch != nil {
+			// Every parent refers to the object with a size_bytes
+			// that is not the size of the object the storage holds
+			// for that reference.
+			size := d.GetSizeBytes()
+			switch v := sizeMismatch.Variant % 3; {
+			case v == 0 && size > 0:
+				size--
+			case v == 1:
+				size += 100
+			default:
+				size++
+			}
+			d = digestWithSize(d, size)
+			c.blobs[casKey(d)] = append([]byte(nil), b...)
+		}
+		mat.dirDigests = append(mat.dirDigests, d)
 	}
 	type fix struct {
 		key  string
